@@ -65,6 +65,7 @@ type jRun struct {
 	T        int      `json:"t"`
 	IDs      []uint16 `json:"ids"`
 	Signers  []uint16 `json:"signers,omitempty"`
+	Expect   string   `json:"expect,omitempty"` // sign | refuse
 	Ok       bool     `json:"ok"`
 	ErrClass string   `json:"err_class"` // "" | timeout | digest_mismatch | other
 	ErrText  string   `json:"err_text,omitempty"`
